@@ -12,7 +12,8 @@
     run keeps the 28-bit unique-id cursor from wrapping (the code never checks
     an id for reuse). *)
 From RsM Require Import Lib.MachInt Model.Slots Model.SlotsSpec Proofs.SlotsFacts Proofs.SlotsInv
-  Proofs.SlotsStep Proofs.SlotsEvict Proofs.SlotsRdv Proofs.SlotsNode Proofs.SlotsOwn Proofs.SlotsTheorems.
+  Proofs.SlotsStep Proofs.SlotsEvict Proofs.SlotsRdv Proofs.SlotsNode Proofs.SlotsOwn Proofs.SlotsExch
+  Proofs.SlotsExchNode Proofs.SlotsSweep Proofs.SlotsProbe Proofs.SlotsTheorems.
 From Coq Require Import Permutation.
 Open Scope N_scope.
 
@@ -49,6 +50,38 @@ Theorem C20_quiescent_clean : forall (cap mx : nat) (ops : list nop),
   n_reserved (tb (core n)) = 0.
 Proof. exact quiescent_no_reserved. Qed.
 Print Assumptions C20_quiescent_clean.
+
+(** Every in-use exchange slot (owned or waiting to be accepted) of an unsecured session
+    belongs to a handshake attempt whose handler has not ended; "waiting to be accepted"
+    exactly for attempts no handler has taken yet. *)
+Theorem C20_exchange_slots_owned : forall (cap mx : nat) (ops : list nop),
+  8 * N.of_nat (length ops) <= UID_MAX ->
+  let n := nrun cap mx node_init ops in
+  forall sid xi v, slot_live (Some v) = true -> lslot (nl n) sid xi v ->
+    exists a, In a (atts n) /\ a_sess a = sid /\ a_xi a = xi /\ (a_stage a = 0 <-> v = XPending).
+Proof. exact exchange_slots_owned. Qed.
+Print Assumptions C20_exchange_slots_owned.
+
+(** Termination measure of the sweeper: with a dropped exchange slot left, one sweep
+    strictly decreases their number. *)
+Theorem C20_sweep_decreases : forall (cap mx : nat) (s : st) (now : N),
+  NoDup (ids (tb s)) -> (0 < dcount (t_sess (tb s)))%nat ->
+  (dcount (after_sweep cap mx s now) < dcount (t_sess (tb s)))%nat.
+Proof. exact sweep_decreases. Qed.
+Print Assumptions C20_sweep_decreases.
+
+(** Complete quiescence: after ANY run, once every handshake handler has finished, failed or
+    been cancelled and the application holds no exchange on its established sessions, [k]
+    sweeps ([k] at least the number of dropped slots) leave no reserved slot and no exchange
+    slot in use: every session left is an idle one. *)
+Theorem C20_quiescent_all_slots_free : forall (cap mx : nat) (ops : list nop) (k : nat) (now : N),
+  8 * N.of_nat (length ops + k) <= UID_MAX ->
+  let n := nrun cap mx node_init ops in
+  atts n = [] -> app_closed (nl n) -> (dcount (nl n) <= k)%nat ->
+  let n' := sweeps cap mx k now n in
+  forall s, In s (nl n') -> s_reserved s = false /\ forall e, In e (s_exch s) -> e = None.
+Proof. exact quiescent_clean_full. Qed.
+Print Assumptions C20_quiescent_all_slots_free.
 
 (** ... and whenever a dropped exchange is left anywhere, the sweeper step is
     enabled and does something (fairness of the transport task is assumed). *)
@@ -98,6 +131,20 @@ Theorem C20_recovers : forall (cap mx : nat) (ops : list op) (now : N),
     In id (hids (fst (step cap mx s (OReserve now)))).
 Proof. exact recovers. Qed.
 Print Assumptions C20_recovers.
+
+(** Outside the known class "fewer than two reclaimable slots" ([room2]: two free slots, or one
+    free slot and an idle session, or two idle sessions): in every reachable state a new
+    handshake (first message, repeated once after Busy) gets its unsecured session, and its
+    handler's reserve succeeds (for PASE: unless another PASE is in progress). *)
+Theorem C20_handshake_gets_both_slots : forall (cap mx : nat) (ops : list nop) (k : hkind) (now : N),
+  8 * N.of_nat (length ops) + 24 <= UID_MAX ->
+  let n := nrun cap mx node_init ops in
+  room2 cap now (nl n) ->
+  (k = HPase -> marker_live now (marker n) = None) ->
+  exists n1 a, first_msg cap mx k now n = (n1, Some a) /\
+               snd (nstep cap mx n1 (NAccept a VGood now)) = ROk.
+Proof. exact handshake_two_slots. Qed.
+Print Assumptions C20_handshake_gets_both_slots.
 
 (** The PASE in-progress marker stops refusing other initiators once its 60 s are over. *)
 Theorem C20_marker_expires : forall (a o e now : N),
@@ -190,3 +237,13 @@ Example ex_one_reclaimable_slot_is_not_enough :
   let n := nrun 3 5 node_init (pre ++ [NRx HCase 11; NRx HCase 12; NAccept 2 VGood 13]) in
   atts n = [] /\ n_reserved (tb (core n)) = 0.
 Proof. vm_compute. repeat split; reflexivity. Qed.
+
+(* the receive path: the sixth exchange on a session closes it *)
+Example ex_rx_closes_session :
+  snd (step 3 5 (run 3 5 st_init [OAdd 1; ORxExch 0 2; ORxExch 0 3; ORxExch 0 4; ORxExch 0 5; ORxExch 0 6]) (ORxExch 0 7)) = RId 0.
+Proof. vm_compute. reflexivity. Qed.
+
+(* remove_for_fabric purges a reserved slot too; its completed handle is then dropped without effect *)
+Example ex_fabric_purge :
+  run 3 5 st_init [OReserveNow 1; OUpdate 0 MCase 2; OComplete 0; ORemoveSet [0] None; ODropH 0 3] = mkSt (mkT [] 1) [].
+Proof. vm_compute. reflexivity. Qed.
